@@ -383,8 +383,8 @@ func genC11All(r *rand.Rand, tier string) []Case {
 func init() {
 	register(&Prop{
 		ID: "C11", Num: 11,
-		Gen: genC11All,
-		New: func() Case { return &c11Any{} },
+		Gen:  genC11All,
+		New:  func() Case { return &c11Any{} },
 		Rule: "for 60 (thorough 600) input sets of 1..4 ascending inputs: the fault-free run, a failing Next at every position of every input (single faults, exhaustive), a failing WriteNext at every call (exhaustive), and one sampled double fault; for Merge, MergeCompact(latest wins) and MergeCompact(skip tombstones); plus merges over real tables one of whose data files was cut at every record boundary (with and without a zero tail, opened without load validation); plus memstore flushes in a child process whose write system calls fail beyond a file-size limit, for limits 0..700 (every 7th in the quick tier). Non-trivial: >=2 non-empty inputs and an injected fault.",
 	})
 }
